@@ -500,6 +500,9 @@ func judge(c tcase, r result) (v verdict) {
 			total++
 		}
 		if (!p.Initial || p.MaxReplicas == 0) && lim > 0 && !ok {
+			if !anyPart(w, j, e[0]+e[1]) {
+				return fail("ec:success-although-an-enabled-rule-was-never-placed"+dupClass(p, j), "no part of EC rule #%d was acknowledged by any node (%s)", j, why)
+			}
 			return fail("ec:success-with-"+ecClass(why)+dupClass(p, j), "%s", why)
 		}
 		// a part acknowledged outside its rule's list / twice on a node is a placement error whenever the rule was applied
@@ -508,7 +511,16 @@ func judge(c tcase, r result) (v verdict) {
 		}
 	}
 	if p.Initial && p.MaxReplicas > 0 && total < p.MaxReplicas {
-		return fail("initial:success-with-fewer-replicas-than-max-replicas", "MaxReplicas=%d but only %d replicas (sum over rules of min(acknowledging nodes of the list, limit) + complete EC rules)", p.MaxReplicas, total)
+		dup := ""
+		for j := range p.EC {
+			if d := dupClass(p, j); d != "" {
+				dup = ":policy-repeats-an-identical-EC-rule"
+			}
+		}
+		if dup == "" && p.PreferLocal {
+			dup = ":prefer-local-rule-reordering"
+		}
+		return fail("initial:success-with-fewer-replicas-than-max-replicas"+dup, "MaxReplicas=%d but only %d replicas (sum over rules of min(acknowledging nodes of the list, limit) + complete EC rules)", p.MaxReplicas, total)
 	}
 	return v
 }
@@ -706,8 +718,15 @@ func main() {
 				for i, v := range idx {
 					reps[i] = v + 1
 				}
+				if !thorough && len(lens) >= 2 && k > 4 {
+					return false // quick: two/three-rule policies over at most 4 distinct nodes
+				}
 				p := policy{Lists: lists, Reps: reps}
-				jobs = append(jobs, job{p, k, repKinds})
+				kinds := repKinds
+				if !thorough && len(lens) == 2 && (lens[0] == 4 || lens[1] == 4) {
+					kinds = repKinds[:1] // quick: the two other kinds only for lists of up to 3 nodes
+				}
+				jobs = append(jobs, job{p, k, kinds})
 				if withInitial && sumOf(reps) <= initSum {
 					initialVariants(p, func(q policy) { jobs = append(jobs, job{q, k, []string{"trusted"}}) })
 				}
@@ -733,12 +752,12 @@ func main() {
 	// three REP rules
 	max3, rep3 := 2, 2
 	if thorough {
-		max3, rep3 = 3, 3
+		max3, rep3 = 3, 2
 	}
 	for a := 1; a <= max3; a++ {
 		for b := 1; b <= max3; b++ {
 			for c := 1; c <= max3; c++ {
-				addRep([]int{a, b, c}, rep3, a <= 2 && b <= 2 && c <= 2)
+				addRep([]int{a, b, c}, rep3, thorough && a <= 2 && b <= 2 && c <= 2)
 			}
 		}
 	}
@@ -758,7 +777,11 @@ func main() {
 			}
 			jobs = append(jobs, job{p, k, kinds})
 			if withInitial {
-				initialVariants(p, func(q policy) { jobs = append(jobs, job{q, k, []string{"trusted", "ec-part"}}) })
+				ik := []string{"trusted", "ec-part"}
+				if !thorough && len(lens) > 1 {
+					ik = ik[:1]
+				}
+				initialVariants(p, func(q policy) { jobs = append(jobs, job{q, k, ik}) })
 			}
 		})
 	}
@@ -776,16 +799,9 @@ func main() {
 			}
 		}
 	}
-	// REP + EC
-	for _, e := range ecRules {
-		for a := 1; a <= 3; a++ {
-			for rep := 1; rep <= a && rep <= 2; rep++ {
-				for l := e[0] + e[1]; l <= 3; l++ {
-					addEC([][2]int{e}, []int{a, l}, 1, []int{rep}, thorough || (a <= 2 && rep == 1 && l == e[0]+e[1]))
-				}
-			}
-		}
-	}
+	// REP+EC policies are NOT enumerated: the Inner Ring refuses such containers ("REP+EC rules are not
+	// supported yet", pkg/innerring/processors/container/process_container.go), so they cannot exist.
+	_ = addEC
 	nEC := len(jobs) - nMain1 - nMain2 - nMain3
 
 	if os.Getenv("VERIF_COUNT") != "" { // developer aid: size of the space per group
@@ -804,6 +820,15 @@ func main() {
 			}
 			return
 		}
+		var mainJ, initJ []job
+		for _, j := range jobs {
+			if j.p.Initial {
+				initJ = append(initJ, j)
+			} else {
+				mainJ = append(mainJ, j)
+			}
+		}
+		fmt.Println("main policies:", len(mainJ), cnt(mainJ), "initial variants:", len(initJ), cnt(initJ))
 		fmt.Println("1 rule:", nMain1, cnt(jobs[:nMain1]), "2 rules:", nMain2, cnt(jobs[nMain1:nMain1+nMain2]), "3 rules:", nMain3, cnt(jobs[nMain1+nMain2:nMain1+nMain2+nMain3]), "ec:", nEC, cnt(jobs[nMain1+nMain2+nMain3:]))
 		os.Exit(0)
 	}
@@ -892,8 +917,8 @@ func main() {
 	r.Set("violation_classes", vc)
 	r.Set("outcome_classes", len(classes))
 	r.Set("outcome_class_counts", cl)
-	r.Set("policies", map[string]int{"one_rep_rule": nMain1, "two_rep_rules": nMain2, "three_rep_rules": nMain3, "ec_and_rep+ec": nEC})
-	r.Rule(fmt.Sprintf("policies up to renaming of the 5 universe nodes (lists = ordered tuples of distinct nodes, overlapping in every way): 1 REP rule lists 1..4 copies 1..4; 2 REP rules lists 1..4 copies 1..4; 3 REP rules lists 1..%d copies 1..%d; EC-only 2/1 and 1/1 (one rule over total..%d nodes, two rules incl. identical ones over total..3 nodes); REP+EC; for REP policies whose copies sum to <= %d (one rule: 4) and the smaller EC / REP+EC policies EVERY valid initial placement policy (all limit vectors, every MaxReplicas, PreferLocal on/off); x object kind (trusted REGULAR = node-side EC, client-sealed REGULAR, LOCK broadcast, sealed EC part of every rule/index) x local node = every node of the policy or none x ALL 2^n healthy-node vectors. distinct non-trivial = distinct cases with a mixed healthy vector (neither all nor none) in which at least one node was contacted", max3, rep3, maxEC, initSum))
+	r.Set("policies", map[string]int{"one_rep_rule": nMain1, "two_rep_rules": nMain2, "three_rep_rules": nMain3, "ec": nEC})
+	r.Rule(fmt.Sprintf("policies up to renaming of the 5 universe nodes (lists = ordered tuples of distinct nodes, overlapping in every way): 1 REP rule lists 1..4 copies 1..4; 2 REP rules lists 1..4 copies 1..4; 3 REP rules lists 1..%d copies 1..%d (quick: 2-3 rule policies use at most 4 distinct nodes, and lists of 4 only with the trusted kind); EC-only 2/1 and 1/1 (one rule over total..%d nodes, two rules incl. identical ones over total..3 nodes); for REP policies whose copies sum to <= %d (one rule: 4) and the smaller EC policies EVERY valid initial placement policy (all limit vectors, every MaxReplicas, PreferLocal on/off); x object kind (trusted REGULAR = node-side EC, client-sealed REGULAR, LOCK broadcast, sealed EC part of every rule/index) x local node = every node of the policy or none x ALL 2^n healthy-node vectors. distinct non-trivial = distinct cases with a mixed healthy vector (neither all nor none) in which at least one node was contacted", max3, rep3, maxEC, initSum))
 	r.Exhaustive(!expired.Load())
 	r.Assume("each node answers deterministically (stores everything it is sent or refuses everything); the real code contacts nodes concurrently (WaitGroup.Go / errgroup), one Go-scheduler interleaving is observed per case - the oracle is schedule-independent (it only uses who acknowledged what)",
 		"the distribution target is assembled by an injected constructor mirroring Streamer.newDistrubutedWriter and driven like slicingTarget drives it (EC split modifier, WriteHeader, Write, Close); payload slicing, signature/format validation and the on-chain meta collection are outside this check",
